@@ -505,3 +505,58 @@ Definition pprof_guard (limit : Z) (wire : Z) (layers : list Z) : pprof_in * Z :
   end.
 Definition pprof_guard_orig (wire : Z) (layers : list Z) : pprof_in * Z :=
   match layers with [] => (PpParsed wire, 0%Z) | n :: _ => (PpParsed n, n) end.
+
+(* ------------------------------------------------------------------------------------------ *)
+(** * 6. The lockstep argument for the decoders without a loop of their own, inside Coq *)
+
+(* The third session's verdict ("the slices handed to onEntries change length only in lockstep") was computed by the translator.
+   Now the translator only EXTRACTS: for every non-literal call site, every statement list of the file that changes the length of
+   one of the slices (members), as the changes in source order, and whether a control-flow statement stands between the first and
+   the last of them.  The verdict is computed here, and what it means is a theorem (proofs/IngestSharedProofs.v section 7):
+   whatever the order and the number of times the lists are executed (any control flow BETWEEN lists: jx callbacks, loops,
+   early returns), the members have one length whenever a list has been left -- in particular at every call of onEntries. *)
+Inductive chg :=
+| ChAppend1                (* x = append(x, one element) *)
+| ChReset                  (* x = x[:0] *)
+| ChMake0                  (* x = make([]T, 0, _) *)
+| ChMakeE (e : string)     (* x = make([]T, e) *)
+| ChOther (s : string).    (* anything else that assigns to x *)
+Definition chg_eqb (a b : chg) : bool :=
+  match a, b with
+  | ChAppend1, ChAppend1 | ChReset, ChReset | ChMake0, ChMake0 => true
+  | ChMakeE x, ChMakeE y => String.eqb x y
+  | _, _ => false                     (* ChOther equals nothing: a list with one is never uniform *)
+  end.
+Fixpoint chgs_eqb (a b : list chg) : bool :=
+  match a, b with [], [] => true | x :: r, y :: s => chg_eqb x y && chgs_eqb r s | _, _ => false end.
+(* ev: the value of a make expression while the list runs (len of the collection being decoded) *)
+Definition apply_chg (ev : string -> N) (c : chg) (n : N) : N :=
+  match c with ChAppend1 => (n + 1)%N | ChReset | ChMake0 => 0%N | ChMakeE e => ev e | ChOther _ => n end.
+Definition lens := string -> N.
+Definition upd (st : lens) (m : string) (v : N) : lens := fun x => if String.eqb x m then v else st x.
+Definition run_block (ev : string -> N) (st : lens) (blk : list (string * chg)) : lens :=
+  fold_left (fun st x => upd st (fst x) (apply_chg ev (snd x) (st (fst x)))) blk st.
+Fixpoint run_trace (st : lens) (tr : list (list (string * chg) * (string -> N))) : lens :=
+  match tr with [] => st | (blk, ev) :: r => run_trace (run_block ev st blk) r end.
+(* the changes one member undergoes in a list, in order *)
+Definition proj (m : string) (blk : list (string * chg)) : list chg :=
+  map snd (filter (fun x => String.eqb (fst x) m) blk).
+(* a list is uniform: no control flow inside, it touches members only, and every member undergoes the SAME sequence of changes
+   (the third session counted kinds per list, which would have accepted `a = append(a, x); b = b[:0]; a = a[:0]; b = append(b, y)`) *)
+Definition block_uniform (members : list string) (b : list (string * chg) * bool) : bool :=
+  negb (snd b)
+  && forallb (fun x => existsb (String.eqb (fst x)) members) (fst b)
+  && match members with
+     | [] => true
+     | m0 :: r => chgs_eqb (proj m0 (fst b)) (proj m0 (fst b)) && forallb (fun m => chgs_eqb (proj m (fst b)) (proj m0 (fst b))) r
+     end.
+(* a derived argument (make([]T, E) / fastFillArray(E, ..)): E is len(member), or the expression every member is made with *)
+Definition derived_ok (members : list string) (blocks : list (list (string * chg) * bool)) (d : string) : bool :=
+  existsb (fun m => String.eqb d ("len(" ++ m ++ ")")) members
+  || (forallb (fun b => forallb (fun x => chg_eqb (snd x) (ChMakeE d)) (fst b)) blocks && negb (Nat.eqb (List.length blocks) 0)).
+Definition lockstep_site := (string * string * list string * list string * list (list (string * chg) * bool))%type.
+Definition site_uniform (s : lockstep_site) : bool :=
+  let '(_, _, members, derived, blocks) := s in
+  negb (Nat.eqb (List.length members) 0) && forallb (block_uniform members) blocks && forallb (derived_ok members blocks) derived.
+Definition members_equal (members : list string) (st : lens) : Prop :=
+  forall m m', In m members -> In m' members -> st m = st m'.
